@@ -103,7 +103,7 @@ PAIRS_NOSNAKE = [("class", "class_"), ("_x", "x"), ("copy", "copy_"), ("__a", "a
 SCHEMA_C = '''
 type Query {{ holder: Holder take(inp: PairInput, {a}: Int, {b}: Int): Int echo(e: PairEnum): PairEnum }}
 type Holder {{ one: Int two: Int {a}: Int {b}: Int }}
-input PairInput {{ {a}: Int {b}: Int }}
+input PairInput {{ {a}: Int {b}: Int pickOne: PairEnum = {ea} pickMany: [PairEnum!] = [{eb}, {ea}] }}
 enum PairEnum {{ {ea} {eb} KEEP }}
 '''
 
@@ -220,7 +220,7 @@ def worker_c(case: Dict[str, Any]) -> CaseResult:
             mod = sys.modules["graphql_client.input_types"]
             cls = mod.PairInput
             wm = {(fi.alias or n): n for n, fi in cls.model_fields.items()}
-            if set(wm) != {a, b}:
+            if not {a, b} <= set(wm) or len(wm) != 4:
                 bad("both-usable", "input model wire names %r" % (sorted(wm),))
             else:
                 inst = cls.model_validate({a: 1, b: 2})
@@ -231,6 +231,12 @@ def worker_c(case: Dict[str, Any]) -> CaseResult:
             members = {m.value: m.name for m in mod.PairEnum}
             if not {a, b} <= set(members):
                 bad("both-usable", "enum members %r" % (members,))
+            else:
+                # the same values named as input defaults must read back as those members
+                inst = sys.modules["graphql_client.input_types"].PairInput()
+                got = (getattr(inst, "pick_one", None) if snake else getattr(inst, "pickOne", None), list(getattr(inst, "pick_many", None) or getattr(inst, "pickMany", None) or []))
+                if getattr(got[0], "value", got[0]) != a or [getattr(x, "value", x) for x in got[1]] != [b, a]:
+                    bad("both-usable", "enum values used as input defaults read back as %r" % (got,))
         stats["c.checked"] = 1
     return CaseResult("violated" if violations else "held", [v.to_json() for v in violations], stats, {"features": feats, "outcomes": [scope + ":both-usable"]})
 
@@ -271,6 +277,10 @@ def parts_b_c(r: core.Run, tier: str, seed: int) -> None:
         for nm in singles:
             for scope in ("variables", "response_keys", "input_fields", "object_fields"):
                 ccases.append({"pair": [nm, "zzPartner"], "scope": scope, "snake": snake, "kind": "pair", "single": True})
+
+    for snake in (True, False):
+        for nm in ["match", "case", "type", "count", "title", "index", "class", "from", "None", "Self", "Query", "copy", "json", "lambda", "_x", "x_"]:
+            ccases.append({"pair": [nm, "ZZ_PARTNER"], "scope": "enum_values", "snake": snake, "kind": "pair", "single": True})
 
     def on_c(case, res):
         r.add(case, res)
